@@ -24,7 +24,7 @@ from props import _reduce_util as U
 PROP = "C22"
 READY = True
 DRIVER = "dm_reduce"
-LEAN_MODULES = ["DaskModel.Props.C22", "DaskModel.Lemmas.ArrayReduce", "DaskModel.Lemmas.BlockScan", "DaskModel.Lemmas.TopK", "DaskModel.Lemmas.GridReduce"]
+LEAN_MODULES = ["DaskModel.Props.C22", "DaskModel.Lemmas.ArrayReduce", "DaskModel.Lemmas.BlockScan", "DaskModel.Lemmas.TopK", "DaskModel.Lemmas.GridReduce", "DaskModel.Lemmas.BlellochAll"]
 CASE_TIMEOUT_S = 20
 LEVEL_TEXT = (
     "Proved in Lean 4 (no size bound): K1 treeReduce_eq_fold — for every block list, every group size k "
@@ -37,10 +37,10 @@ LEVEL_TEXT = (
     "array); multi-axis reductions: gridReduce_eq_fold / sum_nd_eq_numpy / prod_nd_eq_numpy — for a commutative monoid, "
     "every grid of blocks, every per-axis split_every and every depth with n_i ≤ k_i^depth the n-d partial_reduce tree "
     "returns one block with the fold of all data (product of per-axis partitions is a partition of the grid). K2: sequential cumreduction equals the global scan for every chunking "
-    "including zero-length blocks (seqScan_eq_scan); Blelloch: any schedule accepted by the proved interval checker "
-    "yields every block prefix (blelloch_sound, blelloch_eq_scan, any monoid, any n), and dask's schedule is accepted "
-    "for every n_vals ≤ 32 by kernel evaluation (schedOk_le_32) — larger n is validated (all n ≤ 300 in the thorough "
-    "tier): that part is partial. Validated, not proved: float summation order (tolerance), var/std/moment (Chan "
+    "including zero-length blocks (seqScan_eq_scan); Blelloch: the interval checker is sound (blelloch_sound), dask's "
+    "schedule — both while-loops and the max(2, 2**ceil(log2(n//2))) start — is accepted for EVERY n_vals "
+    "(schedOk_all / blelloch_schedule_ok: invariants over powers of two), hence cumsum/cumprod(method='blelloch') = "
+    "NumPy for every chunking and any number of blocks (cumsum_blelloch_eq_numpy, any monoid). Validated, not proved: float summation order (tolerance), var/std/moment (Chan "
     "merge), nan-variants, argtopk (indices checked against the values), median/quantile glue, n-d min/max/mean/arg (the n-d plan is diffed against the real "
     "graph and executed by the driver on integer data)."
 )
@@ -54,6 +54,7 @@ ASSUMPTIONS = [
     "a block is represented by its raveled element list; axes that are not reduced are pointwise (sliced away by the harness)",
     "np.partition/np.argpartition results are compared as multisets (top-k partial results are kept sorted in the model)",
     "depth computed by dask (math.ceil(math.log(n, k))) satisfies n ≤ k^depth — checked on every generated case and on all boundary n ≤ 4096",
+    "2 ** math.ceil(math.log2(n_vals // 2)) (float) equals the exact smallest power of two ≥ n_vals // 2 used by the model — the real schedule is diffed against the model for every n ≤ 40 (quick) / 300 (thorough)",
 ]
 TRUSTED = ["NumPy per-block kernels and NumPy as oracle", "harness replica of split_every normalisation"]
 
